@@ -20,6 +20,7 @@ import json
 import re
 import sys
 
+from .. import coqrun
 from .. import coqterm as T
 from .. import maildir_model as MM
 from .. import maildirfs as M
@@ -780,13 +781,243 @@ def section_maildir(ctx) -> None:
                                            'history': keep[i]['history']})
 
 
+# ------------------------------------------- maildir: failing filesystem calls
+def fault_targets(rng, n_random: int, quick: bool = False) -> list:
+    """(layout, set-up history, command) triples: every command of the
+    alphabet, both layouts."""
+    A = lambda f, *ms: ('append', f, list(ms))
+    base = [('create', ['foo']), A([], ('S', 1), ('', 2)), ('select', [])]
+    fixed = [
+        (base, A(['foo'], ('F', 3))),                              # APPEND, other folder selected
+        (base, A([], ('', 3), ('F', 4), ('S', 5))),                # MULTIAPPEND into the selection
+        (base, A(['foo'], ('', 3), ('S', 4))),                     # MULTIAPPEND elsewhere
+        (base[:2], A([], ('', 3), ('T', 4))),                      # nothing selected
+        (base, ('copy', [1, 2], ['foo'])),
+        (base, ('move', [1, 2], ['foo'])),
+        (base, ('move', [2], [])),                                 # into the selected mailbox
+        (base, ('store', [1, 2], '+', 'F')),
+        (base + [('store', [1, 2], '+', 'T')], ('expunge',)),
+        (base, ('create', ['bar'])),
+        (base + [('create', ['foo', 'sub'])], ('rename', ['foo'], ['bar'])),
+        (base, ('subscribe', ['foo'])),
+        (base + [('subscribe', ['foo']), ('subscribe', ['bar'])], ('unsubscribe', ['foo'])),
+        (base + [A(['foo'], ('', 7), ('S', 8))], ('select', ['foo'])),
+        (base + [('store', [1], '+', 'T'), ('expunge',)], ('check',)),
+        # destination still records an expunged message
+        ([('create', ['foo']), A(['foo'], ('', 1), ('', 2)), A([], ('', 3), ('S', 4)),
+          ('select', ['foo']), ('store', [1], '+', 'T'), ('expunge',), ('select', [])],
+         ('move', [1, 2], ['foo'])),
+    ]
+    out = []
+    for i, (s, c) in enumerate(fixed):
+        # quick: each target on one layout (alternating), the layout-specific
+        # commands CREATE and RENAME on both; thorough: everything on both
+        both = not quick or c[0] in ('create', 'rename')
+        for lay in (('++', 'fs') if both else (('++', 'fs')[i % 2],)):
+            out.append({'layout': lay, 'setup': list(s), 'cmd': c})
+    w = {'append': 6, 'move': 6, 'copy': 3, 'expunge': 2, 'store': 3, 'select': 3, 'create': 2,
+         'rename': 1, 'subscribe': 1, 'unsubscribe': 0, 'check': 1, 'noop': 0, 'examine': 1,
+         'close': 0}
+    tries = 0
+    while n_random > 0 and tries < 50 * n_random:
+        tries += 1
+        h = MM.gen_history(rng, rng.randint(4, 8), weights=w)
+        if h[-1][0] in ('noop', 'examine', 'close') or any(c[0] == 'rename' for c in h[:-1]):
+            continue
+        out.append({'layout': rng.choice(['++', 'fs']), 'setup': h[:-1], 'cmd': h[-1]})
+        n_random -= 1
+    return out
+
+
+def _bodies(d: dict) -> list:
+    return sorted(m['body'] for f in d['folders'].values() for m in f['msgs'])
+
+
+def _contents(d: dict) -> dict:
+    return {'list': sorted(d['list']), 'lsub': sorted(d['lsub']),
+            'folders': {n: [(m['uid'], m['flags'], m['body']) for m in f['msgs']]
+                        for n, f in d['folders'].items()}}
+
+
+def fault_failures(job: dict, x: dict) -> list:
+    """Oracles of the property on one faulted run (not the model)."""
+    cmd = MM._tup(job['cmd'])
+    fails = []
+    d0, d1, d2 = x['dump0'], x['dump1'], x['dump2']
+    failed = x.get('failed') or ['?', '?']
+    where = f'{x["kind"]} at operation {x["k"]} ({failed[0]} {str(failed[1]).split("/")[-1]}) of {cmd}'
+    at_tmp_unlink = failed[0] == 'unlink' and '/tmp/' in str(failed[1])
+    # 1. NO / BAD: nothing changed
+    if x['status'] in ('NO', 'BAD') and _contents(d1) != _contents(d0):
+        fails.append(('no_bad_no_effect', f'{where}: answered {x["status"]} but a fresh session '
+                      f'sees other contents', {'kind': 'no_bad_changed', 'backend': 'maildir'}))
+    # 2. no stale lock, the folders answer at once
+    timeouts = [e for e in d1['errors'] if e['status'] == 'NO' and 'TIMEOUT' in e['resp']]
+    if x['locks_after'] or x['locks'] or timeouts:
+        fails.append(('fault_lock_released', f'{where}: lock file left behind '
+                      f'{x["locks"] or x["locks_after"]}; {len(timeouts)} mailbox(es) answer NO '
+                      f'[TIMEOUT]', {'kind': 'fault_leaves_lock', 'backend': 'maildir'}))
+    # 3. a restarted server serves the same
+    if MM.canon_dump(d1) != MM.canon_dump(d2):
+        fails.append(('fault_restart_same', f'{where}: a new backend object on the directory '
+                      f'serves something else than the running one',
+                      {'kind': 'restart_differs', 'backend': 'maildir'}))
+    # 4. a connection that is still open goes on working
+    if not x['closed'] and x.get('noop_after') != 'OK':
+        fails.append(('fault_lock_released', f'{where}: the connection survived but NOOP answers '
+                      f'{x.get("noop_after")}', {'kind': 'connection_wedged', 'backend': 'maildir'}))
+    # 5. APPEND: all or nothing
+    if cmd[0] == 'append':
+        new = list(_bodies(d1))
+        for b_ in _bodies(d0):
+            if b_ in new:
+                new.remove(b_)
+        n = len(cmd[2])
+        if x['status'] == 'OK' and len(new) != n:
+            fails.append(('multiappend_all_or_nothing', f'{where}: answered OK but {len(new)} of '
+                          f'{n} messages are served', {'kind': 'append_ok_incomplete',
+                                                       'backend': 'maildir'}))
+        if x['status'] != 'OK' and len(new) not in (0, n) or \
+                (x['status'] in ('NO', 'BAD') and new):
+            fails.append(('multiappend_all_or_nothing',
+                          f'{where}: answered {x["status"]} and {len(new)} of its {n} messages '
+                          f'are served afterwards',
+                          {'kind': 'append_half_applied', 'backend': 'maildir',
+                           'fault': 'unlink_tmp' if at_tmp_unlink else 'oserror'}))
+    # 6. MOVE: every message in the source or the destination, never lost
+    if cmd[0] in ('move', 'store', 'select', 'check', 'create', 'subscribe', 'unsubscribe',
+                  'rename'):
+        sel = selection_after_py(job['setup'])
+        self_move = cmd[0] == 'move' and sel is not None and list(sel[0]) == list(cmd[2])
+        got, want = _bodies(d1), _bodies(d0)
+        lost = list(want)
+        for b_ in got:
+            if b_ in lost:
+                lost.remove(b_)
+        dup = len(got) - (len(want) - len(lost))
+        broken = [e for e in d1['errors'] if e['status'] != 'NO' or 'TIMEOUT' not in e['resp']]
+        if lost and not broken:
+            fails.append(('move_conserved', f'{where}: {len(lost)} message(s) are served from no '
+                          f'mailbox afterwards', {'kind': 'move_lost_or_duplicated',
+                                                  'backend': 'maildir', 'fault': 'oserror'}))
+        if dup and not self_move:
+            fails.append(('move_conserved', f'{where}: {dup} message(s) are served twice',
+                          {'kind': 'move_lost_or_duplicated', 'backend': 'maildir',
+                           'fault': 'oserror'}))
+    return fails
+
+
+def selection_after_py(history):
+    from harness.maildir_faults import selection_after
+    return selection_after(history)
+
+
+def section_maildir_faults(ctx) -> None:
+    from harness import maildir_faults as F
+    rng = ctx.rng
+    jobs = fault_targets(rng, ctx.scale(3, 16), ctx.quick)
+    for n, j in enumerate(jobs):
+        # ENOSPC at every position of every target, the other two errors at
+        # every position of every fourth (quick) / second (thorough) target each
+        j['kinds'] = {'enospc': 'all'}
+        every = 4 if ctx.quick else 2
+        if n % every == 0:
+            j['kinds']['eio'] = 'all'
+        if n % every == every // 2:
+            j['kinds']['eacces'] = 'all'
+    results = F.run_faults(jobs)
+    cases, keep = [], []
+    stats = {'runs': 0, 'skipped_unlock': 0, 'serverbug_bye': 0, 'status': {}, 'half_created': 0,
+             'eacces_link_fallback': 0, 'targets': len(jobs)}
+    for job in results:
+        clean = job['clean']
+        if 'events' not in clean or clean.get('error') or clean.get('setup_failed'):
+            ctx.broken.append('maildir fault reference run failed: '
+                              + json.dumps([job['setup'], job['cmd'], clean.get('error'),
+                                            clean.get('setup_failed')])[:400])
+            continue
+        stats['skipped_unlock'] += job.get('skipped_unlock', 0)
+        group: dict = {}
+        for x in job['runs']:
+            rep = {'layout': job['layout'], 'setup': job['setup'], 'cmd': job['cmd'],
+                   'k': x['k'], 'fault': x['kind'], 'backend': 'maildir'}
+            if x.get('error') or 'dump2' not in x:
+                ctx.broken.append('maildir fault run failed: ' + json.dumps(rep)[:300]
+                                  + ' ' + str(x.get('error')))
+                continue
+            stats['runs'] += 1
+            stats['status'][x['status']] = stats['status'].get(x['status'], 0) + 1
+            ctx.count(('maildir_fault', job['layout'], json.dumps(job['setup']),
+                       json.dumps(job['cmd']), x['k'], x['kind']))
+            if x['status'] == 'BYE' and x['serverbug']:
+                stats['serverbug_bye'] += 1
+            if any(e['status'] != 'NO' or 'TIMEOUT' not in e['resp']
+                   for e in x['dump1']['errors']):
+                stats['half_created'] += 1
+            fails = fault_failures(job, x)
+            for clause, text, obs in fails:
+                ctx.failure(clause, text, rep, obs)
+            link_fallback = x['kind'] == 'eacces' and x['failed'] and x['failed'][0] == 'link'
+            if link_fallback:
+                # stdlib Maildir.add falls back to rename() when link() is not
+                # permitted: the command must simply succeed
+                stats['eacces_link_fallback'] += 1
+                if x['status'] != clean['status'] or \
+                        _contents(x['dump1']) != _contents(clean['dump1']):
+                    ctx.failure('observation', f'link() refused with EACCES at operation {x["k"]} '
+                                f'of {job["cmd"]}: the rename fallback did not complete the '
+                                f'command', rep, {'kind': 'link_fallback_failed'})
+                continue
+            ob, unknown = F.fault_obs(job, x)
+            if unknown or F.prefix_differs(job, x):
+                ctx.disagreement('maildir_fault', {'events': unknown[:3], 'prefix_differs':
+                                                   F.prefix_differs(job, x), **rep})
+            group.setdefault(x['kind'], []).append((ob, rep, x, bool(fails)))
+        for kind, items in group.items():
+            if x_fs0_differs(job, [it[2] for it in items]):
+                ctx.disagreement('maildir_fault_determinism',
+                                 {'layout': job['layout'], 'setup': job['setup'],
+                                  'cmd': job['cmd']})
+            cases.append(F.fault_case(job, [it[0] for it in items]))
+            keep.append((job, items))
+    ctx.extra['maildir_fault'] = stats
+    if keep:
+        job, items = keep[len(keep) // 2]
+        rep, x = items[len(items) // 2][1], items[len(items) // 2][2]
+        ctx.sample({'maildir_fault': rep, 'status': x['status'],
+                    'after_fault': [e[:2] for e in x['events'][x['failed_index'] or 0:]]})
+    bad = ctx.run_cases('maildir_fault', F.HEADER, 'fault_case', cases, 'chk_fault', shard=2,
+                        timeout=1800)
+    # pinpoint: re-evaluate the runs of the first failing groups one by one
+    for gi in bad[:3]:
+        job, items = keep[gi]
+        singles = [F.fault_case(job, [it[0]]) for it in items]
+        res = coqrun.run_cases('C14', 'maildir_fault_pin', F.HEADER, 'fault_case', singles,
+                               'chk_fault', shard=4, timeout=1800)
+        for i in (res['bad'] or [0])[:3]:
+            _ob, rep, x, had_failure = items[i]
+            ctx.disagreement('maildir_fault', {**rep, 'status': x['status'],
+                                               'after_fault': [e[:2] for e in x['events']
+                                                               [x['failed_index'] or 0:]],
+                                               'monitor_failed_too': had_failure})
+
+
+def x_fs0_differs(job: dict, runs: list) -> bool:
+    """The start state of every faulted run is that of the fault-free run
+    (names are deterministic): the model is evaluated on the latter."""
+    want = [list(e) for e in job['clean']['fs0']]
+    return any([list(e) for e in x['fs0']] != want for x in runs)
+
+
 def run(ctx) -> None:
     import time
     ctx.rule = ('dict: sessions of 25 random commands (APPEND with 1-4 messages, UID MOVE / COPY '
                 'of 1-3 uids, EXPUNGE, an unparseable line) on two mailboxes, each with a fault '
                 'position drawn over the storage calls of the command (or none); non-trivial = '
                 'not the unparseable line.  maildir: histories centred on MOVE / COPY / '
-                'multi-message APPEND, every filesystem-operation boundary as the kill point')
+                'multi-message APPEND, every filesystem-operation boundary as the kill point; '
+                'maildir faults: every command of the alphabet, every filesystem operation of it '
+                'raising ENOSPC / EIO / EACCES in turn (lock-file removals excepted)')
     ctx.assumptions += [
         'a dict-backend command body does not suspend under asyncio (measured on every run), so '
         'cancellation and disconnect land between commands; faults inside a command are '
@@ -795,15 +1026,20 @@ def run(ctx) -> None:
         'while parsing, before the insertion; pop/insert of move have no fallible call between)',
         'maildir: one process, kill = no further filesystem operation; rename(2) atomic; '
         'thread-level interleavings of the production executor are not explored',
+        'maildir faults: one OSError per command, raised by the os-level call wrapped in the '
+        'harness process before it takes effect (a failing write: write() of the file object '
+        'raises); an OSError of the lock file\'s own removal is swallowed by FileLock._unlock and '
+        'is not a fault position',
     ]
-    ctx.check_proofs(['Faults/DictFaults', 'MaildirFS/Check'])
+    ctx.check_proofs(['Faults/DictFaults', 'MaildirFS/Check', 'Faults/MaildirFaultsCheck'])
     timing = ctx.extra.setdefault('section_wall_s', {})
     for name, sec in (('dict', section_dict),
                       ('atomicity', lambda c: arun(measure_atomicity(c))),
                       ('drops', lambda c: arun(drops_and_cancels(c), timeout=300)),
                       ('fault_sweep', lambda c: arun(faults_inside_storage_calls(c), timeout=400)),
                       ('move_window', move_window_calls),
-                      ('maildir', section_maildir)):
+                      ('maildir', section_maildir),
+                      ('maildir_faults', section_maildir_faults)):
         t0 = time.time()
         sec(ctx)
         timing[name] = round(time.time() - t0, 1)
